@@ -37,6 +37,16 @@ def extra_checks(ft, tier, seed):
         "Sequence.__iter__, Sequence.__reversed__, Sequence.count (generators: outside the pyvc subset), "
         "slices with a step, order-insensitive keys()/items()",
         "all lists of <= %d items over 5 item universes (3 keys x 2 payloads), every argument" % (3 if tier == "quick" else 4)))
+    r5 = harness.run_json("bounded/findings_r5.py", ["key-membership"])
+    if r5.get("reproduces"):
+        out.append({"name": "finding.key-membership", "status": "known", "kind": "known finding (open)", "what": r5["witness"]})
+    elif "error" in r5:
+        out.append({"name": "finding.key-membership", "status": "error", "detail": r5["error"]})
+    r5 = harness.run_json("bounded/findings_r5.py", ["typed-result-dropped"])
+    if r5.get("reproduces"):
+        out.append({"name": "finding.typed-result-dropped", "status": "known", "kind": "known finding (open)", "what": r5["witness"]})
+    elif "error" in r5:
+        out.append({"name": "finding.typed-result-dropped", "status": "error", "detail": r5["error"]})
     return out
 
 
